@@ -278,6 +278,10 @@ def gen_specs(rng: random.Random, n, hints=None):
             sp["hlen104"] = True
             if "ext_hdr" not in sp and r2.random() < 0.7:
                 sp["ext_hdr"] = [[0x6803F857, (b"\x00" * 48).hex()]] if r2.random() < 0.5 else [[0xE2792ACA, b"qcow2".hex()]]
+        if version == 2 and r2.random() < 0.5:
+            # version-2 image whose first header extension has a length with bit 4 set (16..31 / 48..63): in a version-3 header those
+            # bytes (72..79) would be the incompatible-feature bits, 0x10 = extended L2 entries; a version-2 header has no such field
+            sp["ext_hdr"] = [[0x6803F857, (b"\x00" * 48).hex()]] if r2.random() < 0.5 else [[0x0BADC0DE, (b"\x01" * r2.choice([16, 20, 31])).hex()]]
         out.append(sp)
     return out
 
